@@ -306,6 +306,9 @@ func (w *world) buildRegistry() {
 		w.addPair(&pairInfo{label: "multi1", base: "umulti1", ch: 0, voucher: v2, token: first.token, kind: tkModule})
 		for _, u := range w.users {
 			w.seedVoucher(0, "umulti0", u, 5_000_000)
+			// ... and some of the second, unconverted (received before it was registered): a receive converts what it
+			// received, not what the receiver happens to hold
+			w.seedVoucher(0, "umulti1", u, 5_000_000)
 		}
 	}
 
